@@ -275,8 +275,8 @@ Definition neg_c (c : fclass) : fclass :=
 Definition k_sqrt (c : fclass) : list fclass :=
   match c with
   | Nan | NInf | NBig | NOne | NSmall => [Nan]
-  | Zero => [Zero] | PSmall => [PSmall] | POne => [POne] | PBig => [PBig] | PInf => [PInf]
-  end.
+  | Zero => [Zero] | PSmall => [PSmall; POne] | POne => [POne] | PBig => [POne; PBig] | PInf => [PInf]
+  end.                 (* rounding: sqrt(1 + 2^-52) = 1 *)
 Definition k_log (c : fclass) : list fclass :=
   match c with
   | Nan | NInf | NBig | NOne | NSmall => [Nan]
